@@ -22,10 +22,10 @@ pub fn grammar(name: &str) -> Option<J> {
         // right recursion through a boxed self reference
         "rightrec" => json!(["rec", ["ignored", ["or", ["then", ["just", ["a"]], ["boxed", ["ref", 1]]], ["just", ["x"]]]]]),
         // Pratt: a long run of prefix operators, a long right-associative chain, a long postfix run
-        "prefix" => json!(["ignored", ["pratt", ["just", ["a"]], [["prefix", 1, "-"]], "vec"]]),
-        "infixr" => json!(["ignored", ["pratt", ["just", ["a"]], [["infixr", 1, "^"]], "tuple"]]),
-        "infixl" => json!(["ignored", ["pratt", ["just", ["a"]], [["infixl", 1, "+"]], "tuple"]]),
-        "postfix" => json!(["ignored", ["pratt", ["just", ["a"]], [["postfix", 1, "!"]], "vec"]]),
+        "prefix" => json!(["ignored", ["pratt", ["just", ["a"]], [["prefix", 1, ["just", ["-"]]]], "vec"]]),
+        "infixr" => json!(["ignored", ["pratt", ["just", ["a"]], [["infixr", 1, ["just", ["^"]]]], "tuple"]]),
+        "infixl" => json!(["ignored", ["pratt", ["just", ["a"]], [["infixl", 1, ["just", ["+"]]]], "tuple"]]),
+        "postfix" => json!(["ignored", ["pratt", ["just", ["a"]], [["postfix", 1, ["just", ["!"]]]], "vec"]]),
         // plain repetition and a deep chain of memoized recursion (no native recursion per item expected)
         "repeat" => json!(["run", ["rep", ["just", ["a"]], 0, -1]]),
         _ => return None,
